@@ -374,6 +374,13 @@ def model_phase(ctx: Ctx) -> list:
     return exported
 
 
+def _nontrivial(prop, r):
+    # records of the object-history machine are shared by several properties: non-trivial = at least two steps
+    if "steps" in r and "heap0" in r:
+        return len(r["steps"]) >= 2
+    return prop.nontrivial(r)
+
+
 def validate_records(ctx: Ctx, recs: list[dict], module: str | None = None, env: dict | None = None) -> None:
     """Batch trace validation: TLC evaluates the property predicates on every
     recorded observation and appends exactly one verdict line per record."""
@@ -390,7 +397,8 @@ def validate_records(ctx: Ctx, recs: list[dict], module: str | None = None, env:
         uniq.append(r)
     ctx.evaluations += len(recs)
     ctx.distinct += len(uniq)
-    ctx.nontrivial += sum(1 for r in uniq if prop.nontrivial(r))
+    # (records of the object-history machine are shared by several properties: non-trivial = at least two steps)
+    ctx.nontrivial += sum(1 for r in uniq if _nontrivial(prop, r))
     if not uniq:
         return
     n = len(ctx.model_runs)
@@ -456,7 +464,7 @@ def validate_records(ctx: Ctx, recs: list[dict], module: str | None = None, env:
             ctx.other.append({"clauses": other, "gen": rec.get("gen")})
         if not mine:
             ctx.accepted += 1
-            if len(ctx.samples) < 3 and prop.nontrivial(rec):
+            if len(ctx.samples) < 3 and _nontrivial(prop, rec):
                 ctx.samples.append({"trace": _shorten(rec), "verdict": "ACCEPT"})
             continue
         for c in mine:
